@@ -143,6 +143,15 @@ func (e *polyEnv) baseName(v ssa.Value) string {
 		}
 	case *ssa.Slice:
 		return e.baseName(x.X)
+	case *ssa.FieldAddr:
+		// array-valued field indexed in place
+		if f, _ := fieldOfAddr(x); f != nil {
+			return normName(f.Name())
+		}
+	case *ssa.Field:
+		if f, _ := fieldOfAddr(x); f != nil {
+			return normName(f.Name())
+		}
 	}
 	return ""
 }
